@@ -203,7 +203,14 @@ class Run(object):
             if n > 1:
                 raise Violation(("serialized_twice", {"what": what}),
                                 "%s nid=%s: serializer of %r ran %d times for one message" % (what, nid, k, n))
-        should_fail = bool(tname) and (bool(self.failed) or any(k in omitted for k in dkeys))
+        natural = False
+        for k, sname in declared:
+            if k in fields:
+                try:
+                    SER[sname](fields[k])
+                except Exception:  # noqa
+                    natural = True      # the serializer itself cannot handle this value
+        should_fail = bool(tname) and (bool(self.failed) or natural or any(k in omitted for k in dkeys))
         mine = [r for r in new if self.is_mine(r.msg, nid, what)]
         if not should_fail:
             if len(mine) != 1:
